@@ -68,9 +68,9 @@ func checkC03(c *Ctx) {
 		"(S-accept) right-sized inputs are not rejected by a size guard, reach no panicking precondition of crypto/cipher, and the returned ciphertext/tag have the lengths the decrypting side insists on; " +
 		"(S-key/S-nonce/S-tag/S-length/S-unsupported) a key, nonce, tag, plaintext/ciphertext length or algorithm name of the wrong size/kind makes every path return the package sentinel without output and without reaching a panicking precondition; the three ECDSA names are distinguishable on their path (otherwise a key on the wrong curve cannot be refused); " +
 		"(T-reject) if the authenticating/verifying primitive (AEAD.Open, hmac.Equal, key-unwrap integrity check, rsa.Verify*/Decrypt*, ecdsa/ed25519 verify) reports failure no path returns success; " +
-		"(AEAD-cbc-hmac) aescbcaead.Open rejects wrong nonce sizes, partial blocks, short inputs and tag mismatches with an error instead of panicking, its accepting path compares all tagSize bytes of the received and of the computed tag (16/24/32), Seal/Open MAC (AAD, IV, ciphertext) in the RFC 7518 5.2.2.1 layout with AL in bits, the constructors carry the RFC 7518 5.2.3-5.2.5 parameters; " +
+		"(AEAD-cbc-hmac) hmacTag feeds the MAC with A || IV || E || AL (AL = 8 bytes, bit length of A) for empty, nil and non-empty associated data alike; aescbcaead.Open rejects wrong nonce sizes, partial blocks, short inputs and tag mismatches with an error instead of panicking, its accepting path compares all tagSize bytes of the received and of the computed tag (16/24/32), Seal/Open MAC (AAD, IV, ciphertext) in the RFC 7518 5.2.2.1 layout with AL in bits, the constructors carry the RFC 7518 5.2.3-5.2.5 parameters; " +
 		"(KW-rfc3394) aeskw.Wrap/Unwrap reject inputs that are not whole 64-bit blocks / too short with an error instead of panicking or silently ignoring bytes, fail closed on the IV check, which compares all 8 bytes of A, return len+8 / len-8 bytes, and in both the loop-variant step counter reaches a big-endian byte encoding (binary.BigEndian.PutUintN or single-byte stores of t>>k) with at least its low 32 bits — a narrowing of t to 8/16 bits or a little-endian encoding is reported, shapes the bit-flow analysis cannot classify are UNDECIDED; " +
-		"(PAD-pkcs7) PadPKCS7 returns len+16-len%16 bytes. " +
+		"(PAD-pkcs7) PadPKCS7 returns len+16-len%16 bytes; UnpadPKCS7 returns buf[:len-padLen] only where branch facts establish 1 <= padLen <= size against the block-size parameter (a bound against the buffer length, a strict bound or no bound is reported; pad lengths that also flow into calls/masks are UNDECIDED) and after a byte-by-byte loop over exactly the last padLen bytes (other verification shapes are UNDECIDED). " +
 		"NOT decided: that decryption inverts encryption byte for byte, interoperability of the produced bytes beyond primitive/parameter/layout selection (trusted: Go standard library, x/crypto; the RFC 3394 round structure beyond the counter encoding (number of rounds, that the encoded counter is XORed into A at the right byte positions), the PKCS#7 pad byte values, which half of the CBC-HMAC key is the MAC key are content-level facts pinned only by the repository's vector tests), that every single-byte mutation is rejected (follows from the primitives' authentication, which is assumed), PSS salt options, constant-time behaviour, RSA key-size handling inside the standard library, the Ed25519 curve check beyond key kind."
 	r.Assumptions = append(r.Assumptions,
 		"documented contracts of the standard library: aes.NewCipher accepts exactly 16/24/32-byte keys; cipher.NewGCM on an AES block never fails and has a 12-byte nonce and 16-byte tag; NewCBCEncrypter/Decrypter panic unless len(iv)==16; BlockMode.CryptBlocks panics on partial blocks or a short destination; AEAD.Seal/Open panic on a nonce of the wrong length; chacha20poly1305.New/NewX accept exactly 32-byte keys; crypto.Hash(0).New panics",
@@ -89,7 +89,7 @@ func checkC03(c *Ctx) {
 	r.Rule(c03RReject, "failure of the authenticating/verifying primitive never reaches a success return", 28)
 	r.Rule(c03RAead, "aescbcaead: Open returns errors (never panics) for wrong nonce / partial block / short input / bad tag; RFC 7518 parameters and MAC layout; the whole tag (tagSize bytes on both sides) takes part in the comparison; NonceSize/Overhead", 12)
 	r.Rule(c03RKW, "aeskw: Wrap/Unwrap reject malformed lengths with an error, fail closed on the IV check which compares all 8 bytes, accept well-formed input; the step counter t reaches its big-endian byte encoding with at least its low 32 bits in both directions (no narrowing to 8/16 bits, no little-endian)", 8)
-	r.Rule(c03RPad, "PadPKCS7(buf,16) returns len(buf)+16-len(buf)%16 bytes and no error", 1)
+	r.Rule(c03RPad, "PadPKCS7(buf,16) returns len(buf)+16-len(buf)%16 bytes and no error; UnpadPKCS7 strips padLen bytes only under the dominating facts 1 <= padLen <= size (the block-size parameter, not the buffer length) and after an index loop over exactly buf[len-padLen:len) that compares every byte with byte(padLen) and whose mismatch branch cannot reach the stripping return", 3)
 
 	// anchors ---------------------------------------------------------------
 	for _, s := range []string{"ErrUnsupportedAlgorithm", "ErrKeyTypeMismatch", "ErrInvalidNonce", "ErrInvalidTag", "ErrInvalidPlaintextLength", "ErrInvalidCiphertextLength"} {
@@ -123,6 +123,7 @@ func checkC03(c *Ctx) {
 	r.Stats["scenario_runs"] = e.execs
 
 	c.Fixture("c03sym", func(fp *Prog, fr *Report) { c03FixtureRule(fp, fr) })
+	c.Fixture("c03unpad", func(fp *Prog, fr *Report) { c03UnpadFixtureRule(fp, fr) })
 	c.Fixture("c03kw", func(fp *Prog, fr *Report) { c03KWFixtureRule(fp, fr) })
 }
 
@@ -1293,33 +1294,66 @@ func (e *c03Env) checkAEAD() {
 			}
 			vw.merge(w)
 		}
-		run := e.run(mk(24, 24, false), hmacTag, []c03V{c03U(), c03NonNilV(), c03SliceV(5), c03SliceV(16), c03SliceV(48), c03IntV(24)}, "hmacTag(A=5, IV=16, E=48 bytes)")
-		w := c03Verdict{truncated: run.truncated}
-		for _, o := range run.outs {
-			var writes []int64
-			al := int64(-1)
-			for _, ev := range o.Events {
-				if (ev.Name == "io.Writer.Write" || ev.Name == "hash.Hash.Write") && len(ev.Args) == 2 {
-					writes = append(writes, c03KnownLen(ev.Args[1]))
+		// layout for empty (nil and zero-length) and non-empty associated data: AL is part of the MAC input on every path
+		for _, adv := range []struct {
+			v    c03V
+			n    int64
+			what string
+		}{{c03SliceV(5), 5, "5 bytes of associated data"}, {c03SliceV(0), 0, "empty associated data"}, {c03NilV(), 0, "nil associated data"}} {
+			run := e.run(mk(24, 24, false), hmacTag, []c03V{c03U(), c03NonNilV(), adv.v, c03SliceV(16), c03SliceV(48), c03IntV(24)}, "hmacTag("+adv.what+", IV=16, E=48 bytes)")
+			w := c03Verdict{truncated: run.truncated}
+			var expect []int64
+			if adv.n > 0 {
+				expect = append(expect, adv.n)
+			}
+			expect = append(expect, 16, 48, 8)
+			wantSum := adv.n + 16 + 48 + 8
+			for _, o := range run.outs {
+				var segs []int64
+				var sum int64
+				unknown := false
+				al, sawAL := int64(-1), false
+				for _, ev := range o.Events {
+					if (ev.Name == "io.Writer.Write" || ev.Name == "hash.Hash.Write") && len(ev.Args) == 2 {
+						n := c03KnownLen(ev.Args[1])
+						if n < 0 {
+							unknown = true
+						} else if n > 0 { // writing zero bytes does not change the MAC input
+							segs = append(segs, n)
+							sum += n
+						}
+					}
+					if strings.HasSuffix(ev.Name, "PutUint64") && len(ev.Args) == 3 && ev.Args[2].K == c03Int {
+						al, sawAL = ev.Args[2].I, true
+					}
 				}
-				if strings.HasSuffix(ev.Name, "PutUint64") && len(ev.Args) == 3 && ev.Args[2].K == c03Int {
-					al = ev.Args[2].I
+				same := len(segs) == len(expect)
+				for k := 0; same && k < len(segs); k++ {
+					same = segs[k] == expect[k]
+				}
+				msg := ""
+				switch {
+				case o.Panic != "":
+					msg = o.Panic
+				case unknown:
+					w.imprecise = run.desc + ": a Write of unknown length; layout not decidable"
+				case sum != wantSum:
+					msg = fmt.Sprintf("the MAC is fed %d bytes (pieces %v); RFC 7518 §5.2.2.1 always MACs A || IV || E || AL = %d+16+48+8 = %d bytes — the 8-byte AL block (all zero for empty associated data) is part of the input on every path, so this tag differs from every other implementation's", sum, segs, adv.n, wantSum)
+				case !same && len(segs) == len(expect):
+					msg = fmt.Sprintf("MAC input is written as pieces of %v bytes; RFC 7518 §5.2.2.1 requires A(%d) || IV(16) || E(48) || AL(8)", segs, adv.n)
+				case !same:
+					w.imprecise = fmt.Sprintf("%s: the MAC input has the right total length but is written in %d pieces (%v); order not decidable", run.desc, len(segs), segs)
+				case sawAL && al != 8*adv.n, !sawAL && adv.n != 0:
+					msg = fmt.Sprintf("AL encodes %d, RFC 7518 requires the bit length of the associated data (%d)", al, 8*adv.n)
+				case c03KnownLen(o.Res[0]) != 24:
+					msg = "hmacTag does not truncate the MAC to the requested tag length"
+				}
+				if msg != "" && w.bad == "" {
+					w.bad = run.desc + ": " + msg
 				}
 			}
-			switch {
-			case o.Panic != "":
-				w.bad = o.Panic
-			case len(writes) != 4:
-				w.imprecise = fmt.Sprintf("hmacTag feeds the MAC with %d Write calls (4 expected); layout not decidable", len(writes))
-			case writes[0] != 5 || writes[1] != 16 || writes[2] != 48 || writes[3] != 8:
-				w.bad = fmt.Sprintf("MAC input is written as pieces of %v bytes; RFC 7518 §5.2.2.1 requires A(5) || IV(16) || E(48) || AL(8)", writes)
-			case al != 40:
-				w.bad = fmt.Sprintf("AL encodes %d, RFC 7518 requires the bit length of the associated data (40)", al)
-			case c03KnownLen(o.Res[0]) != 24:
-				w.bad = "hmacTag does not truncate the MAC to the requested tag length"
-			}
+			vw.merge(w)
 		}
-		vw.merge(w)
 		e.settle(c03RAead, rel+".aesCBCAEAD MAC input", p.Pos(hmacTag.Pos()), vw, "Seal and Open both MAC (associated data, nonce, ciphertext) in the RFC 7518 layout", "the authentication tag does not cover what RFC 7518 says it covers")
 	}
 	// NOTE only: MAC-then-decrypt order
@@ -1521,6 +1555,7 @@ func (e *c03Env) checkPad() {
 		}
 		v.merge(w)
 	}
+	c03CheckUnpad(e.p, e.r, c03RPad, e.p.Func("crypto/padding", "UnpadPKCS7"))
 	e.settle(c03RPad, FuncName(e.p, fn)+" length", e.p.Pos(fn.Pos()), v, "PadPKCS7 always adds 1..16 bytes up to the next block boundary", "PadPKCS7 does not produce PKCS#7 padding to the block size (CBC encryption panics or does not interoperate)")
 }
 
